@@ -395,6 +395,8 @@ def source_keywords(fmt):
                 for w in n.value.replace(",", " ").split() if len(n.value) < 200 else ():
                     if re.fullmatch(r"[A-Za-z_][A-Za-z0-9_\[\]\-]{1,40}", w):
                         words.add(w)
+                    elif len(w) <= 3 and not any(ch.isalnum() or ch.isspace() for ch in w):
+                        words.add(w)          # punctuation the parser looks for (comment / continuation marks, separators)
     except (OSError, SyntaxError):
         pass
     _KW_CACHE[fmt] = sorted(words)
@@ -413,6 +415,16 @@ def keyword_documents(fmt, text, rng, limit):
     pos = [p for p in pos if 0 <= p <= n]
     docs = []
     for w in kws:
+        if not (w[0].isalpha() or w[0] == "_"):
+            # a punctuation mark of the parser: after / glued to the end of a line, alone on a line, before a line
+            for p in pos + [n - 1]:
+                if 0 <= p < n:
+                    docs.append("\n".join(lines[:p] + [lines[p] + " " + w] + lines[p + 1:]) + "\n")
+                    docs.append("\n".join(lines[:p] + [lines[p] + w] + lines[p + 1:]) + "\n")
+                    docs.append("\n".join(lines[:p] + [w + lines[p]] + lines[p + 1:]) + "\n")
+                docs.append("\n".join(lines[:p] + [w] + lines[p:]) + "\n")
+            docs.append("\n".join(lines + [w, "", ""]) + "\n")
+            continue
         for p in pos:
             for tail in ("", " 1", " x, y, z", " 1 2 3 4 5 6"):
                 docs.append("\n".join(lines[:p] + [w + tail] + lines[p:]) + "\n")
